@@ -13,7 +13,7 @@ import ArvVerif.Model.C08_FS
 open ArvVerif ArvVerif.C08
 
 def md5Loc (b : Bytes) : Loc :=
-  MD5.hex (ByteArray.mk b.toArray) ++ "+" ++ toString b.length
+  (MD5.hex (ByteArray.mk b.toArray) ++ "+" ++ toString b.length).toUTF8.toList
 
 abbrev CFS := FS FileNode Ptr Store
 
@@ -27,7 +27,7 @@ def errName : Err → String
 def segShape : Seg → String
   | Seg.mem buf fl => "m" ++ toString buf.length ++ (if fl = Flush.none then "" else "!")
   | Seg.stored loc size off l =>
-    "s" ++ toString l ++ "." ++ toString off ++ "." ++ toString size ++ "." ++ (loc.take 8).toString
+    "s" ++ toString l ++ "." ++ toString off ++ "." ++ toString size ++ "." ++ String.ofList ((loc.take 8).map (fun b => Char.ofNat b.toNat))
 
 def fileShape (fn : FileNode) : String :=
   "R" ++ toString fn.repacked ++ ":Z" ++ toString fn.size ++ ":" ++ "+".intercalate (fn.segs.map segShape)
